@@ -149,3 +149,55 @@ pub fn run_to_client(sim: &Sim, _idx: u64) {
         Drive::Stalled { .. } => {}
     }
 }
+
+/// A status that reaches tonic *inside an error chain* (behind `Error::source()` of wrapper errors
+/// — a layer's error on the server, a transport or body error on the client) keeps its code,
+/// message, details and every metadata entry: through `Status::from_error` and through the body
+/// error path of the client's decoder.
+pub fn run_status_in_chain(sim: &Sim, _idx: u64) {
+    use crate::seams::{ErrKind, Ev, Segmented, SimBody};
+    let spec = crate::gen::gen_status(sim, false);
+    let depth = sim.range(1, 3) as u8;
+    sim.nontrivial();
+    sim.sample(|| format!("{} behind {depth} wrapper error(s)", spec.summary()));
+    sim.ev(|| format!("config: {} behind {depth} wrapper(s)", spec.summary()));
+    let err = ErrKind::Nested(spec.clone(), depth);
+    let got: tonic::Status = if sim.chance(1, 2) {
+        sim.probe("status-in-chain-via-from-error");
+        tonic::Status::from_error(err.to_box())
+    } else {
+        sim.probe("status-in-chain-via-body-error");
+        // some messages, then the body fails with the chained error
+        let mut evs: Vec<Ev> = vec![];
+        let n = sim.range(0, 2);
+        for _ in 0..n {
+            evs.push(Ev::Data(bytes::Bytes::from(crate::indep::frame(0, &sim.bytes(sim.range(0, 40) as usize)))));
+        }
+        evs.push(Ev::Err(err));
+        let body = Segmented::new(SimBody::new(sim, "resp", evs, sim.pick(&[0u64, 30]), false));
+        let dec = tonic::codec::Codec::decoder(&mut crate::rawcodec::RawCodec::default());
+        let mut s = tonic::codec::Streaming::new_response(dec, body, http::StatusCode::OK, None, None);
+        let mut terminal: Option<tonic::Status> = None;
+        for _ in 0..8 {
+            let fut = s.message();
+            let mut fut = std::pin::pin!(fut);
+            match simcore::drive(sim, fut.as_mut(), 100_000) {
+                simcore::Drive::Done(Ok(Some(_))) => {}
+                simcore::Drive::Done(Ok(None)) => break,
+                simcore::Drive::Done(Err(e)) => {
+                    terminal = Some(e);
+                    break;
+                }
+                _ => return sim.violation("C08/status-in-chain-stream-stuck", "the stream neither ended nor failed".into()),
+            }
+        }
+        match terminal {
+            Some(e) => e,
+            None => return sim.violation("C08/status-in-chain-lost", "the body failed with an error chain containing a Status; the stream ended cleanly".into()),
+        }
+    };
+    crate::gen::check_status_received(sim, "status found in an error chain", &spec, &got);
+    if let Some(d) = crate::gen::md_mismatch(&spec.md, got.metadata()) {
+        sim.violation("C08/status-in-chain-metadata-differs", format!("status found behind {depth} wrapper(s): {d}"));
+    }
+}
